@@ -16,6 +16,7 @@ KEYS = {  # key in the subject -> label
     "made a follower while waiting": "S14",
     "adopts that term": "S17",
     "follows a truncated suffix": "S18",
+    "counts TrailingLogs from the entries": "S19",
     "verif: observation hooks": "HOOKS",
 }
 log = subprocess.check_output(["git", "-C", "/repo", "log", "--format=%h %s", "-n", "30"], text=True).splitlines()
